@@ -44,6 +44,13 @@ FILES = {
     "strings.lbl": b"a = \"it's\"\nb = 'say \"hi\"'\nc = NULL\nd = \"END\"\ne = \"multi\n  line\"\nEND\n",
     "garbage.lbl": b"= = ( }\n",
     "leap.lbl": b"t = 23:59:60\nEND\n",
+    # a byte that is not UTF-8 inside the label text
+    "latin1.lbl": b'a = "caf\xe9"\nb = 1\nEND\n',
+    "latin1comment.lbl": b'/* \xb0 */\na = 1\nEND\n',
+    # a line that reads END without being the End Statement
+    "endline.lbl": b'a = "first\nEND\nlast"\n/* not the\nEND;\n*/\nb = 2\nEND\n',
+    "crlf.lbl": b"a = 1\r\nb = abc-\r\n  def\r\nGROUP = g\r\n  c = 2\r\nEND_GROUP\r\nEND\r\n",
+    "odlonly.lbl": b"a = 2#-0101#\nb = 12:00+01:30\nc = 16#-7F#\nEND\n",
     # strings whose need for quotes depends on which decoder the encoder is paired with
     "stringy.lbl": b'a = "12:00:00+01"\nb = "2001-01-01T12:00:00+01:00"\nc = "16#-7F#"\nd = "a+b"\ne = "NULL"\n'
                    b'f = "1.5"\ng = "inf"\nh = "-16#7F#"\ni = "23:59:60"\nj = "END"\nk = "2001-366"\nEND\n',
@@ -124,8 +131,7 @@ def check_translate(path, fmt, to_file, tmpdir):
     case = {"tool": "translate", "file": os.path.basename(path), "format": fmt, "to_file": to_file}
     # the library side, with fresh objects
     try:
-        with open(path, "r") as f:
-            m = pvl.load(f)
+        m = pvl.load(path)                    # THE library call: load the input
         lib = None
         if fmt == "JSON":
             want = json.dumps(m)
